@@ -366,6 +366,85 @@ def replay_reload(model, seed, inst):
 
 
 
+def twin_trainability(run):
+    """The bias / weight of an unfrozen quantized module receive the float module's gradients only if they are still trained: a parameter
+    of the source module that requires grad must require grad in the quantized twin (whatever the flags of the source's other parameters)."""
+    from props import C08
+
+    for kind in ("linear", "conv2d"):   # QLayerNorm has no quantized weight and exists only with quantized activations
+        for frozen in ("weight", "bias", None):
+            inst = {"lemma": "twin trainability", "module": kind, "source_parameter_not_trained": frozen}
+            run.count_instance(**{"tt_module": kind, "tt_frozen": frozen})
+            E = C08.engine(run)
+            qm = E.get(f"{QMOD}::quantize_module")
+
+            def prog(E2, kind=kind, frozen=frozen):
+                src = {"linear": C08.mk_linear, "conv2d": C08.mk_conv, "layernorm": C08.mk_ln}[kind](E2, "m")
+                if frozen is not None:
+                    p = src.fields[frozen]
+                    if not isinstance(p, STensor):
+                        raise Unsupported("source parameter is not a plain tensor")
+                    p.requires_grad = False
+                flags = {n: src.fields[n].requires_grad for n in ("weight", "bias")}
+                qt = E2.load_module(OC.QTYPE).env.lookup
+                q = E2.call(qm, [src], {"weights": qt("qint8"), "activations": None})
+                return flags, q
+
+            tag = f"{kind}/source-{frozen}-not-trained"
+            try:
+                res = E.explore(Builtin("c11tt", prog), lambda E2: ([], {}), name="C11.twin_trainability")
+            except Unsupported as u:
+                run.undecide(f"C11/twin-trainability[{tag}]", u, inst)
+                continue
+            run.absorb(E)
+            if not run.expect_paths(res, f"C11/twin-trainability[{tag}]", inst):
+                continue
+            rp = lambda m, s, i=dict(inst): replay_trainability(m, s, i)
+            for pi, r in enumerate(res):
+                if r.outcome != "return":
+                    continue   # C08's business
+                flags, q = r.value
+                if not isinstance(q, Obj):
+                    continue
+                for n, was in flags.items():
+                    if was is not True:
+                        continue
+                    tw = q.fields.get(n)
+                    rg = tw.fields.get("_w_requires_grad") if is_wrapper(tw) else getattr(tw, "requires_grad", None)
+                    run.add(f"C11/unfrozen/twin-{n}-still-trained-when-the-source's-is[{tag}]/path{pi}", r.hyps, z3.BoolVal(rg is True), "property", inst,
+                            {"twin_requires_grad": rg, "source_flags": flags}, replay=rp)
+
+
+def replay_trainability(model, seed, inst):
+    import torch
+    from optimum.quanto import qint8
+    from optimum.quanto.nn import quantize_module
+
+    torch.manual_seed(seed)
+    kind = inst["module"]
+    if kind == "linear":
+        m, x = torch.nn.Linear(16, 8), torch.randn(3, 16)
+    elif kind == "conv2d":
+        m, x = torch.nn.Conv2d(4, 6, 3), torch.randn(2, 4, 8, 8)
+    else:
+        m, x = torch.nn.LayerNorm(16), torch.randn(3, 16)
+    fr = inst["source_parameter_not_trained"]
+    if fr:
+        getattr(m, fr).requires_grad_(False)
+    q = quantize_module(m, weights=qint8)
+    if q is None:
+        return None
+    m(x).sum().backward()
+    out = q(x).sum()
+    if out.requires_grad:
+        out.backward()
+    for n in ("weight", "bias"):
+        if getattr(m, n).grad is not None and getattr(q, n).grad is None:
+            return {"what": f"the float module's {n} receives a gradient, the unfrozen quantized twin's does not", "module": kind, "source_parameter_not_trained": fr,
+                    "twin_requires_grad": bool(getattr(q, n).requires_grad)}
+    return None
+
+
 def differentiable_reads(run):
     """The gradient can only flow back to the producer of a quantized tensor through its differentiable entry point, dequantize() (an
     autograd Function), called while gradient recording is on.  Two call sites read quantized inputs on behalf of the user:
@@ -575,7 +654,7 @@ def build(run):
     for key in (f"{OC.QFUNC}::QTensorLinear.forward", f"{OC.QFUNC}::QTensorLinear.backward", f"{QMOD}::QModuleMixin.qweight", f"{QMOD}::QModuleMixin.freeze"):
         run.under_contract(E0, key)
     lib.lean_lemmas(run, ["sum_linear", "flat_div", "flat_mod"])
-    for part in (identity_backwards, linear_backward, linear_dispatch, differentiable_reads, reloaded_frozen_weights, freshness):
+    for part in (identity_backwards, linear_backward, linear_dispatch, differentiable_reads, reloaded_frozen_weights, twin_trainability, freshness):
         try:
             part(run)
         except Unsupported as u:
